@@ -134,12 +134,7 @@ def mk : IO Handler := do
             unhex urlReq, cred? with
       | some ms, some su, some sp, some fresh, some m, some us, some ur, some cred =>
         let ms := serverMethods (ms.getD [])
-        let srv : Conn → Req → Conn × Resp := fun c rq =>
-          if c.closed then (c, { status := 0, www := [] })
-          else
-            let (c', o) := serve H ms su sp c fresh rq
-            (c', { status := o.status, www := o.www.getD [] })
-        let (c', _, reqs, res) := clientDo H srv ({} : Conn) none
+        let (c', _, reqs, res) := clientDo H (serveResp H ms su sp fresh) ({} : Conn) none
           { method := m, urlStr := us, urlReq := ur, cred := cred }
         let r := match res with
           | .resp r => toString r.status
